@@ -11,6 +11,9 @@ import (
 
 // Run: drv_store -in behaviours.json -out trace.ndjson [-twin] [-permethod N]
 func Run(args []string) error {
+	if len(args) == 2 && args[0] == "-child" {
+		return RunChild(args[1])
+	}
 	fs := flag.NewFlagSet("store", flag.ContinueOnError)
 	in := fs.String("in", "", "behaviours json")
 	out := fs.String("out", "", "trace ndjson")
